@@ -7,9 +7,11 @@
    nothing is written after Wait returned.  That the LAST frame is written after every
    bar became terminal is a liveness statement about the run-time (the final render
    loop); it is checked on every trace by the c03 monitor, not proved here.
-   Known finding (D9, open): a bar whose actor exited through cancellation before its
-   last operation was rendered is drawn by the container goroutine from the state it
-   published at exit; see known_findings.json. *)
+   History (D9): on the pinned tree a bar whose actor was busy when the container was
+   cancelled could run the shutdown frame's render closure before its ctx.Done branch
+   and was drawn running in the last frame; /repo "fix: a bar stopped by context
+   cancellation is drawn aborted in the frames that follow" marks it aborted in the
+   render closure, which Container.step's BAR_RENDER rule follows. *)
 From Coq Require Import Permutation.
 From MPB Require Import Base BaseProofs BarState BarStateProofs Container ContainerProofs ContainerLife ContainerFlush.
 
